@@ -107,7 +107,9 @@ impl<'tcx> Cx<'tcx> {
                 ProjectionElem::Deref => "\"*\"".to_string(),
                 ProjectionElem::Field(f, _) => {
                     let mut name = None;
+                    let mut adt_path: Option<String> = None;
                     if let ty::Adt(adt, _) = pty.ty.kind() {
+                        adt_path = Some(path_of(self.tcx, adt.did()));
                         let vi = pty.variant_index.unwrap_or(rustc_abi::FIRST_VARIANT);
                         if adt.is_enum() || adt.is_struct() || adt.is_union() {
                             if let Some(v) = adt.variants().get(vi) {
@@ -117,7 +119,7 @@ impl<'tcx> Cx<'tcx> {
                             }
                         }
                     }
-                    format!("[\"f\",{},{}]", f.index(), opt_s(name.as_deref()))
+                    format!("[\"f\",{},{},{}]", f.index(), opt_s(name.as_deref()), opt_s(adt_path.as_deref()))
                 }
                 ProjectionElem::Index(l) => format!("[\"i\",{}]", l.index()),
                 ProjectionElem::ConstantIndex { offset, min_length, from_end } => {
@@ -148,6 +150,9 @@ impl<'tcx> Cx<'tcx> {
         if let ty::FnDef(did, args) = ty.kind() {
             let (p, a, _k, _t) = self.resolve(*did, args);
             return format!("[\"k\",{},[\"fn\",{},{}]]", s(&tys), s(&p), s(&a));
+        }
+        if let Some(sdid) = c.check_static_ptr(self.tcx) {
+            return format!("[\"k\",{},null,{}]", s(&tys), s(&format!("static:{}", path_of(self.tcx, sdid))));
         }
         let mut val = "null".to_string();
         if ty.is_integral() || ty.is_bool() || ty.is_char() {
